@@ -180,3 +180,29 @@ func TestC01NearMissHashes(t *testing.T) {
 	stats.Case("near-miss-hashes", true, "near-miss-hashes")
 	stats.Exhaustive("single-bit differences between computed and expected piece hash (160 bits x heap and mmap pieces)")
 }
+
+// An allocation the operating system refuses (the address space, the mapping
+// count or a resource limit is exhausted) must leave the accounting where it
+// was: what is reported as allocated is what is held.
+func TestC03AllocFailure(t *testing.T) {
+	before := alloc.Bytes()
+	refused := 0
+	for _, n := range []int{1 << 47, 1<<46 + 4096, 1<<47 + 128*1024} {
+		b, err := alloc.Alloc(n)
+		if err == nil {
+			alloc.Free(b)
+			continue // this machine maps that much; nothing to see
+		}
+		refused++
+		if got := alloc.Bytes(); got != before {
+			t.Fatalf("alloc.Alloc(%d) failed (%v) and %d bytes are reported as allocated, %d before the call: the accounting counts memory that is not held", n, err, got, before)
+		}
+	}
+	if got := alloc.Bytes(); got != before {
+		t.Fatalf("after allocating and freeing: %d bytes reported, %d before", got, before)
+	}
+	if refused == 0 {
+		t.Skip("inconclusive: no allocation was refused on this machine")
+	}
+	stats.Case("alloc-refused", true, "allocation-refused-by-the-system")
+}
